@@ -184,6 +184,8 @@ func AsPendingAttestation(v View, err error) (*PendingAttestationView, error) {
 type PendingAttestations []*PendingAttestation
 
 func (a *PendingAttestations) Deserialize(spec *common.Spec, dr *codec.DecodingReader) error {
+	// decode into a recycled object: drop what it holds (dr.List appends)
+	*a = (*a)[:0]
 	return dr.List(func() codec.Deserializable {
 		i := len(*a)
 		*a = append(*a, &PendingAttestation{})
